@@ -106,6 +106,9 @@ type Hist struct {
 	// SlotFlags are per-slot switches set by events (e.g. "descins-down": every DescribeInstances
 	// call of this slot's scan fails; those calls are issued in map order, so they are not choice points).
 	SlotFlags map[string]bool
+	// PostSync runs after the informer view was synced and before the scan (per slot): changes made
+	// there are in the API store but not yet in the view.
+	PostSync []func(h *Hist)
 	PermPods   int
 
 	Lifetimes int // controller lifetimes started
@@ -361,6 +364,7 @@ func (h *Hist) slot() {
 	s := h.S
 	h.Stale, h.SkipSettle, h.Restart, h.ExtraTicks, h.PermNodes, h.PermPods = false, false, false, 0, 0, 0
 	h.SlotFlags = map[string]bool{}
+	h.PostSync = nil
 	h.Trace = append(h.Trace, fmt.Sprintf("slot %d t=+%s", h.Slot, time.Since(h.T0)))
 	if s.Script != nil {
 		s.Script(h, h.Slot)
@@ -392,6 +396,9 @@ func (h *Hist) slot() {
 	}
 	if !h.Stale {
 		h.W.Sync()
+	}
+	for _, f := range h.PostSync {
+		f(h)
 	}
 	if h.PermNodes > 0 && len(h.W.ViewNodes) > 1 {
 		k := h.PermNodes % len(h.W.ViewNodes)
